@@ -20,6 +20,8 @@ func init() {
 			ruleC12D3(r)
 			ruleErrorsChecked(r, "D4", "/encoding/convert", 50)
 			r.borrow("C07", func() { ruleC07R2(r) }) // a frame for a full subscriber must not stall the read path
+			r.borrow("C08", func() { ruleD1(r) })    // a late reply for a requester that gave up must not wedge the request router
+			r.borrow("C11", func() { ruleC11M7(r) }) // a rejected frame must not stay in the pooled buffer and be parsed in front of the next one
 			ruleNoSwallowedErrors(r, "D6", 10, true, "/encoding", "/encoding/json", "/encoding/protobuf", "/encoding/convert")
 			if pk := r.P.ByPath[modPath+"/encoding/convert"]; pk != nil {
 				ruleC11M12(r, pk)
